@@ -145,6 +145,8 @@ class CallMixin:
                     return self.path.alloc(ObjCell(fcls, {back: base}))
                 if kind == "opaque":
                     return Opaque(arr, f"{cell.rname}.{name}")
+                if kind.startswith("seq:"):
+                    return SeqV(kind[4:], "int", arr=z3.Select(arr[0], base.key), length=z3.Select(arr[1], base.key))
                 t = z3.Select(arr, base.key)
                 if kind == "link":
                     t = z3.simplify(t)
@@ -198,6 +200,8 @@ class CallMixin:
                 return base.attrs.get("errno", base.args[0] if base.args else None)
             raise Unsupported(f"exception attribute {name}")
         if isinstance(base, Sym):
+            if base.kind == "int" and name == "to_bytes":
+                return BoundMethod(("int", name), base)
             raise Unsupported(f"attribute {name} of symbolic scalar")
         if isinstance(base, Opaque):
             raise Unsupported(f"attribute {name} of opaque value")
@@ -268,7 +272,7 @@ class CallMixin:
             if name not in cell.fields:
                 raise Unsupported(f"new attribute {name} on an object of a symbolic map")
             kind, arr = cell.fields[name]
-            if kind in ("facade", "opaque"):
+            if kind in ("facade", "opaque") or kind.startswith("seq:"):
                 raise Unsupported(f"assignment to the field {name} of a region object")
             cell.fields = dict(cell.fields)
             if kind == "link":
